@@ -1250,7 +1250,7 @@ class FileSet:
         if not self._sub_dir:
             return search_dirs
 
-        for subdir_chunk in self._sub_dir_chunks:
+        for level, subdir_chunk in enumerate(self._sub_dir_chunks):
             # Sometimes there is a sub directory part that has no
             # regex/placeholders:
             if not any(True for ch in subdir_chunk
@@ -1266,13 +1266,15 @@ class FileSet:
                 continue
 
             # The sub directory covers a certain time coverage, we make
-            # sure that it is included into the search range.
-            start_check = set_time_resolution(
-                start, self._get_time_resolution(subdir_chunk)[0]
-            )
-            end_check = set_time_resolution(
-                end, self._get_time_resolution(subdir_chunk)[0]
-            )
+            # sure that it is included into the search range. The parsed
+            # placeholders are accumulated over all levels down to this one,
+            # hence the time resolution of all of them counts (not only the
+            # one of this level, which may have no temporal placeholder).
+            resolution = self._get_time_resolution(
+                posixpath.sep.join(self._sub_dir_chunks[:level+1])
+            )[0]
+            start_check = set_time_resolution(start, resolution)
+            end_check = set_time_resolution(end, resolution)
 
             # compile the regex for this sub directory:
             regex = self._fill_placeholders(
